@@ -223,6 +223,11 @@ func randSeparator(r *rand.Rand, needSpace bool) string {
 		n = 1
 	}
 	for i := 0; i < n; i++ {
+		if r.Intn(300) == 0 {
+			// a physical line longer than 64 KiB (a pasted table in a comment)
+			sb.WriteString(" //" + strings.Repeat("long comment ", 5200) + "\n")
+			continue
+		}
 		switch r.Intn(9) {
 		case 0, 1, 2:
 			sb.WriteString(" ")
